@@ -93,6 +93,12 @@ func c09SweepRun(t rec.TB, r *rec.Rec, cs *c09SweepCase) {
 	}
 	r.ClassN("unsafe-vaults", len(unsafe))
 	for _, v := range open {
+		if !v.AmountOut.IsInt64() {
+			r.Class("population-contains-debt-above-2^63-units")
+			break
+		}
+	}
+	for _, v := range open {
 		if p := m.product(m.productIdxByID(v.ExtendedPairVaultID)); !m.cs.Cfg.Liq.Apps[p.App].Whitelisted || !m.cs.Cfg.Liq.Apps[p.App].Dutch {
 			r.Class("population-contains-vault-of-disabled-app")
 			break
@@ -141,7 +147,12 @@ func TestC09_sweep(t *testing.T) {
 					p := probe.product(pi)
 					floor := mustInt(p.Floor)
 					out := floor.MulRaw(rapid.Int64Range(1, 5).Draw(rt, fmt.Sprintf("out%d_%d", u, pi)))
+					// some vaults draw the same amount again after creation (a debt of 18-decimal tokens then passes 2^63 units)
+					again := rapid.IntRange(0, 3).Draw(rt, fmt.Sprintf("again%d_%d", u, pi)) == 0
 					in := probe.minCollateral(p, out)
+					if again {
+						in = probe.minCollateral(p, out.MulRaw(2))
+					}
 					switch rapid.IntRange(0, 2).Draw(rt, fmt.Sprintf("tight%d_%d", u, pi)) {
 					case 0:
 						in = in.AddRaw(1)
@@ -151,6 +162,9 @@ func TestC09_sweep(t *testing.T) {
 						in = in.MulRaw(3)
 					}
 					cs.Setup = append(cs.Setup, vOp{K: "create", U: u, P: pi, A: in.String(), B: out.String()})
+					if again {
+						cs.Setup = append(cs.Setup, vOp{K: "draw", U: u, P: pi, A: out.String()})
+					}
 				}
 			}
 			for a := 0; a < cfg.NColl; a++ {
